@@ -115,6 +115,32 @@ pub fn build_pad(isa: &Isa, shape: usize, n: u32, fail: usize, pad: usize) -> Pr
             bne(&mut c, top);
             c.extend(asm(isa, "TRAPA #x:2", Fields { trap: 0, ..Default::default() }));
         }
+        8 => {
+            // recursion of depth n: f(k) { if (--k) f(k); }
+            c.extend(asm(isa, "MOV.L #xx:32,ERd", f(1, 0, n)));
+            c.extend(asm(isa, "BSR d:8", Fields { data: 2, ..Default::default() })); // call f
+            c.extend(asm(isa, "Bcc d:8", Fields { cc: 0, data: 8, ..Default::default() })); // BRA done (over f: 8 bytes)
+            // f:
+            c.extend(asm(isa, "DEC.L #1,ERd", f(1, 0, 0))); // 2 bytes
+            c.extend(asm(isa, "Bcc d:8", Fields { cc: 7, data: 2, ..Default::default() })); // BEQ ret
+            c.extend(asm(isa, "BSR d:8", Fields { data: 0xfa, ..Default::default() })); // BSR f (-6)
+            c.extend(asm(isa, "RTS", Fields::default())); // ret:
+        }
+        9 => {
+            // one console write of text number n (the harness pokes text and length through `vectors`)
+            let t = console_text(n as usize);
+            let mut padded = t.clone();
+            while padded.len() % 4 != 0 {
+                padded.push(0);
+            }
+            for (k, w) in padded.chunks(4).enumerate() {
+                vectors.push((DATA + 0x20 + 4 * k as u32, u32::from_be_bytes([w[0], w[1], w[2], w[3]])));
+            }
+            vectors.push((DATA + 8, t.len() as u32));
+            c.extend(asm(isa, "MOV.L #xx:32,ERd", f(1, 0, DATA)));
+            c.extend(asm(isa, "MOV.L #xx:32,ERd", f(0, 0, 104)));
+            c.extend(asm(isa, "TRAPA #x:2", Fields { trap: 0, ..Default::default() }));
+        }
         7 => {
             // slow bus: three wait states everywhere, then long-displacement long moves in DRAM space
             c.extend(asm(isa, "MOV.B #xx:8,Rd", f(8, 0, 0xff)));
@@ -161,6 +187,25 @@ pub fn build_pad(isa: &Isa, shape: usize, n: u32, fail: usize, pad: usize) -> Pr
     Prog { code: c, exit_addr, vectors, desc: format!("shape{} n={} fail={} pad={}", shape, n, fail, pad) }
 }
 
+/// Texts of guest shape 9: an ASCII filler with one 3-byte character starting at offset k (k = index, 0..=200), so
+/// that a text is cut inside a character by any fixed-size preview / column limit up to 200; index > 200: long lines.
+pub fn console_text(i: usize) -> Vec<u8> {
+    if i <= 200 {
+        let mut t: Vec<u8> = (0..i).map(|k| b'a' + (k % 26) as u8).collect();
+        t.extend_from_slice("€".as_bytes());
+        while t.len() < 210 {
+            t.push(b'A' + (t.len() % 26) as u8);
+        }
+        t.extend_from_slice("é💡\n".as_bytes());
+        t
+    } else {
+        let n = [300usize, 1000, 1024, 1025, 1500][(i - 201) % 5];
+        let mut t: Vec<u8> = b"status\n".to_vec();
+        t.extend((0..n).map(|k| b'0' + (k % 10) as u8));
+        t
+    }
+}
+
 pub struct Pair {
     pub real: Cpu,
     pub twin: Cpu,
@@ -188,7 +233,7 @@ impl Pair {
     pub fn load(&mut self, p: &Prog) {
         for cpu in [&mut self.real, &mut self.twin] {
             // clear what an earlier program left behind
-            for a in (CODE..CODE + 0x400).chain(DATA..DATA + 0x200).chain(STACK - 0x100..STACK) {
+            for a in (CODE..CODE + 0x400).chain(DATA..DATA + 0x800).chain(STACK - 0x100..STACK) {
                 cpu.bus.dram[(a - 0x400000) as usize] = 0;
             }
             for k in 0..0x100usize {
@@ -202,14 +247,14 @@ impl Pair {
             cpu.bus.io_port_latch = [0; crate::bus::IO_PORT_SIZE];
             cpu.vh_module_manager_restore(crate::modules::ModuleManager::new());
             poke(cpu, CODE, &p.code);
-            for &(va, h) in p.vectors.iter() {
-                poke(cpu, va, &h.to_be_bytes());
-            }
-            // console-write argument block and text
+            // console-write argument block and text (a program may overwrite them through `vectors`)
             poke(cpu, DATA, &1u32.to_be_bytes());
             poke(cpu, DATA + 4, &(DATA + 0x20).to_be_bytes());
             poke(cpu, DATA + 8, &3u32.to_be_bytes());
             poke(cpu, DATA + 0x20, b"ok\n");
+            for &(va, h) in p.vectors.iter() {
+                poke(cpu, va, &h.to_be_bytes());
+            }
             cpu.er = [0; 8];
             cpu.er[2] = CODE;
             cpu.er[7] = STACK;
@@ -552,6 +597,41 @@ fn c13_units(tier: Tier) -> Vec<Unit> {
                     ctx.custom_violation("c13", format!("with the host stalled at {:?}: {}", stalls, msg), case, json!(null), json!({"result": o.result}));
                 } else if o.result != base.result || o.state_sum != base.state_sum || o.er != base.er || o.messages != base.messages || o.pc != base.pc {
                     ctx.custom_violation("c13", format!("with the host stalled at {:?} the run differs from the undisturbed one: result {} vs {}, state count {} vs {}, {} vs {} messages", stalls, o.result, base.result, o.state_sum, base.state_sum, o.messages.len(), base.messages.len()), case, json!(null), json!(null));
+                }
+            }
+        },
+    ));
+    // ---- deep recursion and console texts through run()
+    units.push(Unit::new(
+        "recursion-and-console",
+        16,
+        "guest shape 8 (recursion f(k) { if (--k) f(k); }) with depths 1, 2, 100, 200, 254, 255, 256, 257, 300, 1000, 4000; guest shape 9 (one console write) with 206 texts: a 3-byte character starting at every offset 0-200 of a 214-byte text, and a status line followed by 300-1500 bytes without newline; each through the real run() with the twin following (run() must reach the exit address and emit the stdout: message)",
+        move |ctx, chunk| {
+            let mut pair = Pair::new();
+            let mut progs: Vec<(usize, u32)> = [1u32, 2, 100, 200, 254, 255, 256, 257, 300, 1000, 4000].iter().map(|&d| (8usize, d)).collect();
+            progs.extend((0..206u32).map(|i| (9usize, i)));
+            for (i, &(shape, n)) in progs.iter().enumerate() {
+                if i % 16 != chunk as usize {
+                    continue;
+                }
+                let p = build(&ctx.isa, shape, n, 0);
+                let (o, v) = run_checked(&mut pair, &p, 1_000_000);
+                ctx.st.cases += 1;
+                ctx.st.nontrivial += 1;
+                *ctx.st.notes.entry("instructions executed through run()".into()).or_insert(0) += o.instructions;
+                let case = json!({"shape": shape, "n": n, "fail": 0});
+                if let Some(msg) = v {
+                    ctx.custom_violation("c13", msg, case, json!(null), json!({"result": o.result}));
+                } else if o.result != "ok" {
+                    ctx.custom_violation("c13", format!("terminating guest did not finish: {}", o.result), case, json!(null), json!(null));
+                } else if shape == 9 {
+                    let want = format!("stdout:{}", String::from_utf8_lossy(&console_text(n as usize)));
+                    if !o.messages.iter().any(|m| *m == want) {
+                        ctx.custom_violation("c13", format!("console write of text {}: the stdout: message is missing or differs (messages: {:?})", n, o.messages.iter().map(|m| m.chars().take(40).collect::<String>()).collect::<Vec<_>>()), case, json!(null), json!(null));
+                    }
+                }
+                if ctx.stop {
+                    return;
                 }
             }
         },
